@@ -30,6 +30,7 @@ declare_ghost("h5_file_exists", z3.BoolSort())
 c12_path = z3.Function("c12_path", StrS, StrS)  # pathlib.Path(p) as an opaque (string-like) value
 
 OPT_MOD = "gemseo.algos.optimization_problem"
+DB_CLS = "gemseo.algos.database.Database"
 HDF_MOD = "gemseo.algos._hdf_database"
 DESCR_TEST = "not append or self._OPT_DESCR_GROUP not in h5file"
 DESCR_CALLS = {"require_group", "store_h5data", "store_attr_h5data", "getattr", "zip"}
@@ -82,6 +83,8 @@ class C12Models:
             ex.assumed.add("open handles: h5py.File(..) opens one handle on the modelled file (ghost h5_nopen), leaving the `with` block closes it - also on an exception; "
                            "modes 'w'/'a' create the file")
             return ref
+        if name == "datetime.timedelta":
+            return SV(st.fresh_const("timedelta", ValS), TVal)  # (only formatted into a log line)
         if name.rsplit(".", 1)[-1] == "Path" and len(args) == 1 and not kwargs:
             ex.assumed.add("Path(p) is an opaque value; the backup path names the modelled HDF file (exists() / unlink() act on ghost h5_file_exists)")
             return SV(c12_path(TStr.embed(st, args[0])), TStr)
@@ -116,6 +119,32 @@ class C12Models:
             st.ghost_set("h5_has_ds", z3.BoolVal(False))
             return None
         return NotImplemented
+
+    # ------------------------------------------------------------------ Database(name, input_space)
+    def construct(self, ex, cv, args, kwargs, lineno):
+        if not _on(ex) or cv.qualname != DB_CLS:
+            return NotImplemented
+        from .values import DictObj, ListObj, PyObj, Ref, TObj
+
+        st = ex.st
+        ref = TObj(DB_CLS, schema_key=DB_CLS + "#c12").fresh(st, "new_database")
+
+        def empty(o):
+            if isinstance(o, DictObj):
+                k = z3.Const("k!c12e", o.k.sort())
+                st.assume(o.n == 0)
+                st.assume(z3.ForAll([k], z3.Not(o.member[k])))
+            elif isinstance(o, ListObj):
+                st.assume(o.n == 0)
+            elif isinstance(o, PyObj):
+                for v in o.fields.values():
+                    if isinstance(v, Ref):
+                        empty(st.heap[v.id])
+
+        empty(st.heap[ref.id])
+        ex.assumed.add("Database(name, input_space) (constructor model, source lines `self.__data = {}` .. `self.__hdf_database = HDFDatabase()`): no entry, no listener, "
+                       "a fresh HDFDatabase with an empty pending buffer; the input space is not modelled")
+        return ref
 
     # ------------------------------------------------------------------ description block of OptimizationProblem.to_hdf
     def skip_stmt(self, ex, node):
